@@ -150,7 +150,7 @@ def run(ctx):
         if (o, k) in gen.UNWRITABLE or (a.kind == "block" and (o, k + ":block") in gen.UNWRITABLE):
             continue
         node, it = gen.vocab_doc(r, o, k, ai, "middle")
-        gen.apply_order_rules(node, node.items, gen.GenOpts(gated=ctx.gated))
+        gen.apply_gates(node, ctx.gated)
         docs.append(("vocab", f"{o}.{k}:{a.kind}", eng.loads(render.render([node]).text)))
     for idx, (label, ident, d) in enumerate(docs):
         if ctx.quick:
